@@ -281,20 +281,38 @@ def process_child_nodes(
     if frame_depth + 1 >= var_collector.max_var_depth:
         return []
 
-    class VariableParent(ParentNode):
-
-        def add_child(self, child: VariableId):
-            # look for the child in the lookup and add this id to it
-            var_collector.append_child(variable_id, child)
-
     # scan the child based on type
     try:
-        return find_children_for_parent(var_collector, VariableParent(), var_value, variable_type)
+        return find_children_for_parent(var_collector, VariableParent(var_collector, variable_id), var_value,
+                                        variable_type)
     except BaseException:
         # looking at the attributes of user types runs user code (__getattribute__, properties, ...) that can fail;
         # the value itself is already recorded, it just has no children
         logging.debug("Cannot collect children of %s", variable_type)
         return []
+
+
+class VariableParent(ParentNode):
+    """
+    The parent node of the children of a variable.
+
+    This is not defined inside the function that uses it: a class is only ever released by the garbage collector,
+    and one created per call would keep the collector (and the values it holds) alive until then.
+    """
+
+    def __init__(self, var_collector: Collector, variable_id: str):
+        """
+        Create a new parent.
+
+        :param var_collector: the collector we are using
+        :param variable_id: the variable id to attach children to
+        """
+        self.__var_collector = var_collector
+        self.__variable_id = variable_id
+
+    def add_child(self, child: VariableId):
+        """Look for the parent in the lookup and add this child id to it."""
+        self.__var_collector.append_child(self.__variable_id, child)
 
 
 def correct_names(name, val):
